@@ -35,6 +35,17 @@ CHECKS = {
         "are logged compressed, the direct encoding itself is always compared by TLC.",
    technique="TLA+ specification of UTF-8/16/32 and escape forms; TLC batch oracle over events recorded from Unicode::ToUTF and JSON::Parse",
    design="6 (C20)"),
+ "C03": dict(
+   text="HTML-safety is specified in TLA+ (QEscape: Safe, Decode, Escape and the laws Safe(Escape(s)), Decode(Escape(s)) = Decode(s), "
+        "idempotence). TLC checks the laws, the equality of a line-by-line transcription of EscapeHTMLSpecialChars (QEscapeImpl) with "
+        "Escape, and that every read of the transcription is in bounds, for all strings <= 7 (thorough) / 5 (quick) over a 9-symbol "
+        "alphabet containing every prefix and overlap of the five entities and <= 4 over 17 symbols. The real escaper is run on the "
+        "same enumerated strings and on random long strings (4 widths, exact-size buffers under ASan, appending to a non-empty stream, "
+        "auto-escape on and off) and TLC judges every recorded (input, output, output-of-output) event against the laws.",
+   note="bounded enumeration + sampling; out-of-bounds reads in the real code are sensed by ASan; the template printing paths "
+        "({var}, loop key, svar phrase, echo, {raw}) are bound by the C02 Render oracle which places Escape on exactly those paths.",
+   technique="TLA+ specification of HTML escaping + transcription of the escaper checked by TLC; TLC batch oracle over recorded escaper outputs",
+   design="6 (C03)"),
 }
 PENDING = "not yet claimed in this revision: its specification and conformance harness are still being built (DESIGN.md section 6 describes the plan)"
 m = {
